@@ -246,7 +246,8 @@ def run(ctx):
     django_env.load_relational(inst)
     sqla_env.load_relational(inst)
     # in-lists of many lengths (a backend may switch strategy above some size)
-    lengths = ctx.pick([1, 2, 7, 64, 101, 150, 260], [1, 2, 3, 7, 33, 64, 100, 101, 128, 150, 257, 500, 1000])
+    lengths = ctx.pick([1, 2, 7, 64, 101, 150, 260, 1000, 2101],
+                       [1, 2, 3, 7, 33, 64, 100, 101, 128, 150, 257, 500, 999, 1000, 1001, 2100, 2101, 5000])
     for j, n_items in enumerate(lengths):
         if not ctx.mine(j):
             continue
